@@ -236,8 +236,11 @@ class LogRoundTrip(NativeCase):
         # the last document has two contracts with the same short name and different code (finding F46)
         hom = {".code": docs.code_of_blocks([corpus.tokens("CALLVALUE PUSH 0 MSTORE PUSH 1 PUSH 2 ADD POP")]),
                ".data": {"0": {".auxdata": "a2", ".code": docs.code_of_blocks([corpus.tokens("PUSH 3 PUSH 4 ADD PUSH 0 SSTORE")])}}}
-        for di, (ib, rb) in enumerate(DOCS + DOCS[:1]):
-            doc = docs.dumps(docs.document([corpus.tokens(b) for b in ib], [corpus.tokens(b) for b in rb], homonym=hom if di == len(DOCS) else None))
+        # the document after that has two sub-assemblies with code (seed C09-5)
+        two = [corpus.tokens(b) for b in ("PUSH 2 PUSH 3 ADD PUSH 1 SSTORE", "DUP1 DUP1 XOR ADD")]
+        for di, (ib, rb) in enumerate(DOCS + DOCS[:2]):
+            doc = docs.dumps(docs.document([corpus.tokens(b) for b in ib], [corpus.tokens(b) for b in rb], homonym=hom if di == len(DOCS) else None,
+                                           second_runtime=two if di == len(DOCS) + 1 else None))
             for opts in optsets:
                 inp = dict(doc=di, opts=list(opts))
                 r1 = pipeline.run_cli(doc, ['-log'] + list(opts), fmt=None)
